@@ -445,7 +445,7 @@ def audit_corpus(tier, seed):
             text = v.text(vis).replace("struct T", "struct " + tn).replace("T::", tn + "::").replace("= T<", "= %s<" % tn).replace("= T;", "= %s;" % tn)
             modules.append(("m%03d" % n, text))
             expects[tn] = {"vis": vis, "has_validation": v.has_validation, "new_unchecked": v.new_unchecked}
-    decls = [d for d in ctor_decls(tier, seed) if "nvrt::" not in d.decl_text() and not any("nvrt::" in s for s in d.support)]
+    decls = [d for d in ctor_decls(tier, seed) if not d.unspecified and not d.id.startswith("r") and "nvrt::" not in d.decl_text() and not any("nvrt::" in s for s in d.support)]
     step = max(1, len(decls) // (160 if tier == "quick" else 600))
     for d in decls[::step]:
         n += 1
